@@ -2052,9 +2052,34 @@ func c04ConsumersTotal(c *Ctx) {
 						switch u.(type) {
 						case TIndex, TSlice:
 							se := &strEnv{hook: hook}
-							se.val(u)
+							_, ok := se.val(u)
 							if se.panic != "" && bad == "" {
 								bad = "token " + strconv.Quote(in) + ": " + c.termStr(u) + ": " + se.panic
+							}
+							if !ok && se.panic == "" && undec == "" {
+								// an index or slice of a text whose bounds cannot be folded (an offset reported by a library call): not shown in range
+								var base Term
+								var bounds []Term
+								switch y := u.(type) {
+								case TIndex:
+									base, bounds = y.X, []Term{y.I}
+								case TSlice:
+									base, bounds = y.X, []Term{y.Lo, y.Hi}
+								}
+								// … a number loaded from memory (a field of an error value a decoder filled in): nothing in the helper bounds it.
+								// Bounds over another parameter or a loop variable are decided where the helper is inlined / by the loop rules.
+								loaded := false
+								for _, b := range bounds {
+									collectSubterms(b, func(w Term) {
+										switch w.(type) {
+										case TSel, TDeref:
+											loaded = true
+										}
+									})
+								}
+								if tt := c.termType(base); loaded && tt != nil && isStringType(tt) {
+									undec = "token " + strconv.Quote(in) + ": " + c.termStr(u) + ": the bounds cannot be folded (" + se.fail + "), so the access is not shown to stay within the text"
+								}
 							}
 						}
 					})
